@@ -168,7 +168,7 @@ def main():
             na.append({"property_id": pid, "reason": NOT_APPLICABLE.get(pid, NOT_YET)})
     man = {
         "version": 1,
-        "setup_cmd": "%s -m compileall -q /verif/mc /verif/checks /verif/run.py && %s /verif/selftest/selftest.py" % (PY, PY),
+        "setup_cmd": "%s -m compileall -q /verif/mc /verif/checks /verif/run.py && %s /verif/selftest/selftest.py && %s /verif/selftest/kernel_conformance.py" % (PY, PY, PY),
         "hooks": {
             "guard": "RPYC_VERIF",
             "enable": "no source hooks: checks rebind module globals of rpyc (locks, clocks, sockets) from the harness at run time; RPYC_VERIF is unused by /repo",
